@@ -353,3 +353,31 @@ PROPS['C11'] = dict(
     technique=T_CB + ' via goto-instrument --dfcc, loop contract over ghost state (DP column), constant-bound quantifier expanded by SAT (cadical)',
     explanation=EXPL_COMMON,
     assumptions=['Sellers recurrence taken as the definition of the minimum edit distance over all substrings'])
+Q(id='C13.detect_alphabet.tables', props=['C13', 'C14', 'C04'], cls='P', harness='c13_detect_alphabet.c', entry='h_c13_detect',
+  mode='wrap', unwind=130, timeout=900, defs=['-DKV_C13_TABLES'], loops_files=['msa_op.detect.loops'], funcs=['detect_alphabet'],
+  trusted=[TRUST_MSG], assumptions=[A_LOG, A_WRAP, 'table lemma only: the two 128-entry model tables are class-wise constant (ghost index); the decision itself is checked on class representatives in C13.detect_alphabet.premise*'],
+  native_srcs=['lib/src/tldevel.c', 'lib/src/msa_alloc.c', 'lib/src/alphabet.c'])
+
+# =========================================================================== readers (C05 / C04 / C16), capacity-shrunk
+def _fasta_shapes(tier):
+    import itertools
+    out = []
+    if tier == 'quick':
+        sets = [(1,), (2,), (2, 2), (1, 2), (2, 1, 2), (2, 3), (1, 1, 1), (2, 0, 2), (2, 2, 2, 2), (3, 3)]
+    else:
+        sets = [t for n in (1, 2, 3) for t in itertools.product(range(0, 4), repeat=n)] + [(2, 2, 2, 2), (2, 1, 2, 1), (2, 5), (2, 2, 2, 2, 2)]
+    for t in sets:
+        # smallest complete unwinding bound for this shape: records <= lines, residues per record <= bytes, growth steps of 2
+        uw = max(len(t) + 2, sum(t) + 2, 5)
+        out.append(dict(name='lines' + ''.join(map(str, t)), defs=dict(KV_LINELENS='{' + ','.join(map(str, t)) + '}'), unwind=uw))
+    return out
+READER_NATIVE = ['lib/src/tldevel.c', 'lib/src/tlmisc.c', 'lib/src/msa_alloc.c', 'lib/src/msa_op.c', 'lib/src/msa_misc.c', 'lib/src/alphabet.c', 'lib/src/esl_stopwatch.c']
+Q(id='C05.read_fasta', props=['C05', 'C04', 'C16'], cls='B', harness='c05_read_fasta.c', entry='h_c05_read_fasta', shapes=_fasta_shapes,
+  mode='wrap', unwind=10, timeout=900, loops_files=['msa_alloc.shrink.loops', 'msa_io.shrink.loops'], shrink=True, leak_check=True,
+  defs=['-DKV_CAP=2', '-DKV_SEQCAP=2'], object_bits=11,
+  funcs=['read_fasta', 'null_terminate_sequences', 'alloc_msa', 'alloc_msa_seq', 'resize_msa', 'resize_msa_seq', 'kalign_free_msa', 'free_msa_seq', 'alloc_in_buffer', 'free_in_buffer'],
+  srcs=['lib/src/msa_alloc.c', 'lib/src/msa_op.c', 'lib/src/msa_misc.c', 'lib/src/alphabet.c', 'lib/src/tlmisc.c'],
+  native_srcs=READER_NATIVE,
+  trusted=[TRUST_MSG, 'isalpha/ispunct: CBMC C-locale models (-D__NO_CTYPE)', 'memcpy/realloc: CBMC library models',
+           'R3 capacity shrink: 512-record / 512-residue growth constants replaced by 2 (contracts/msa_alloc.shrink.loops, msa_io.shrink.loops)'],
+  assumptions=[A_NOFAIL, A_WRAP, 'bounded: 1-4 lines of 0-3 (5) bytes, bytes symbolic over the non-control byte domain incl. >= 0x80; getline/FILE plumbing (read_file_stdin) not covered'])
